@@ -178,6 +178,23 @@ def run_inverse(k):
     return obs
 
 
+def run_inverse_plain(k):
+    """the same three claims on plain integers (no symbolic input): decides nothing beyond these points, but it still judges
+    an implementation whose loop count depends on the argument (Euclid) and which the symbolic job cannot finish"""
+    be = k.env.be
+    P = int(k.env.P)
+    obs = []
+    for v in (1, 2, 7, P - 1, P + 2, 3 * P + 5, 1 << 300, -1, -3, -7, -(P - 1), -(P + 4), -(1 << 200), 0, P, -P):
+        try:
+            r = be.fieldinverse(v)
+        except ZeroDivisionError:
+            obs.append(("fieldinverse(%d) raises ZeroDivisionError only for arguments = 0 mod p" % v, v % P == 0))
+            continue
+        obs.append(("fieldinverse(%d) is reduced" % v, 0 <= r < P))
+        obs.append(("%d * fieldinverse(%d) = 1 mod p" % (v, v), (v * r) % P == 1))
+    return obs
+
+
 def run_inverse_after_field_switch(k):
     """the zkinterface base module serves three fields through set_modulus(): an inverse asked for under one field says
     nothing about the same argument under another (plain integers; the module's own API is used to switch and switch back)"""
@@ -265,6 +282,7 @@ def build(n=4, tier="quick", backend="snarkjs"):
                                   (lambda k, kind=kind, ci=ci, part=shc[bi:bi + 100]: run_algebra(k, kind, part, conc=ci)),
                                   ("w1", "w2", "w3"), tags={"c13", kind, "concrete"}))
     ents.append(Entry("inverse", run_inverse, ("x",), tags={"c13", "inv"}))
+    ents.append(Entry("inverse_plain", run_inverse_plain, (), tags={"c13", "inv"}))
     ents.append(Entry("inverse_after_field_switch", run_inverse_after_field_switch, (), tags={"c13", "inv", "zkif"}))
     for m in (3, 5, 7, 13):
         ents.append(Entry("invert_small_%d" % m, (lambda k, m=m: run_invert_small(k, m)), ("x",),
